@@ -438,6 +438,108 @@ def run_project(job):
     return out
 
 
+# ---- which language gets which project/global argument: all call sequences <= 3 over the language sets ------------------
+LANGSETS = [('c',), ('cpp',), ('c', 'cpp')]
+
+
+def lang_sequences(maxlen=3):
+    out = []
+    for n in range(1, maxlen + 1):
+        out += list(itertools.product(range(len(LANGSETS)), repeat=n))
+    return out
+
+
+def build_lang_project():
+    """Main project: one fixed sequence of add_global_(link_)arguments; one subproject per sequence of add_project_(link_)arguments
+    calls.  Call i of a sequence gives the unique arguments -DSEQ<i>=<odd string> / -Wl,--seq<i>."""
+    seqs = lang_sequences()
+    odd = ["a b", "$x;y", "#z*", 'q"r', "é'"]
+    gseq = (2, 0, 1, 2)
+    L = ["project('langargs', 'c', 'cpp', default_options: ['warning_level=0'])"]
+    for i, ls in enumerate(gseq):
+        langs = ', '.join("'%s'" % l for l in LANGSETS[ls])
+        L.append("add_global_arguments(%s, language: [%s])" % (lit('-DGSEQ%d=%s' % (i, odd[i % len(odd)])), langs))
+        L.append("add_global_link_arguments('-Wl,--gseq%d', language: [%s])" % (i, langs))
+    files = {'main.c': 'int main(void) { return 0; }\n', 'main.cpp': 'int main() { return 0; }\n'}
+    L.append("executable('top_c', 'main.c')")
+    L.append("executable('top_cpp', 'main.cpp')")
+    for si, seq in enumerate(seqs):
+        sub = 's%d' % si
+        S = ["project('%s', 'c', 'cpp')" % sub]
+        for i, ls in enumerate(seq):
+            langs = ', '.join("'%s'" % l for l in LANGSETS[ls])
+            S.append("add_project_arguments(%s, language: [%s])" % (lit('-DSEQ%d=%s' % (i, odd[(si + i) % len(odd)])), langs))
+            S.append("add_project_link_arguments('-Wl,--seq%d', language: [%s])" % (i, langs))
+        S.append("executable('%s_c', 'main.c')" % sub)
+        S.append("executable('%s_cpp', 'main.cpp')" % sub)
+        files['subprojects/%s/meson.build' % sub] = '\n'.join(S) + '\n'
+        files['subprojects/%s/main.c' % sub] = files['main.c']
+        files['subprojects/%s/main.cpp' % sub] = files['main.cpp']
+        L.append("subproject('%s')" % sub)
+    files['meson.build'] = '\n'.join(L) + '\n'
+    return files, seqs, gseq, odd
+
+
+def run_lang_project(_job):
+    from verif import mesonproc as mp
+    root = os.path.join(scratch_root(), 'c03lang.%d' % os.getpid())
+    shutil.rmtree(root, ignore_errors=True)
+    files, seqs, gseq, odd = build_lang_project()
+    mp.write_tree(root, files)
+    env = mp.base_env(home=os.path.join(root, 'home'))
+    out = {'viol': [], 'cases': 0, 'setup_rc': None, 'by_kind': {}, 'wrapped': 0, 'rsp_edges': 0}
+    r = mp.run_meson(['setup', 'b'], root, env=env, timeout=600)
+    bdir = os.path.join(root, 'b')
+    if r.rc != 0:
+        out['viol'].append(('C03:lang:setup-fails', 'meson setup rejects the language-set project: ' + r.out[-400:], {'given': None}))
+        shutil.rmtree(root, ignore_errors=True)
+        return out
+    mf = rn.parse_file(os.path.join(bdir, 'build.ninja'))
+
+    def observed(edge, var, prefix, tag):
+        argv, err = sh_split(edge.scope.vars.get(var, ''), os.path.join(root, 'lang.dump'), bdir)
+        return [x for x in (argv or []) if x.startswith(prefix)]
+
+    def check(tname, lang, seq, glob):
+        comp = [e for e in mf.edges if e.rule.name.startswith(lang + '_COMPILER') and e.outs and ('/' + tname + '.p/' in '/' + e.outs[0])]
+        lnk = [e for e in mf.edges if e.rule.name.startswith(lang + '_LINKER') and e.outs and e.outs[0].split('/')[-1] == tname]
+        if not comp or not lnk:
+            out['viol'].append(('C03:lang:no-edge', 'no compile/link statement for %s' % tname, {'given': tname}))
+            return
+        for var, edge, pre_p, pre_g, kind in (('ARGS', comp[0], b'-DSEQ', b'-DGSEQ', 'project_args-by-language'),
+                                            ('LINK_ARGS', lnk[0], b'-Wl,--seq', b'-Wl,--gseq', 'project_link_args-by-language')):
+            exp_p, exp_g = [], []
+            for i, ls in enumerate(seq):
+                if lang in LANGSETS[ls]:
+                    exp_p.append(b('-DSEQ%d=%s' % (i, odd[(glob + i) % len(odd)])) if var == 'ARGS' else b('-Wl,--seq%d' % i))
+            for i, ls in enumerate(gseq):
+                if lang in LANGSETS[ls]:
+                    exp_g.append(b('-DGSEQ%d=%s' % (i, odd[i % len(odd)])) if var == 'ARGS' else b('-Wl,--gseq%d' % i))
+            got_p = observed(edge, var, pre_p, 'p')
+            got_g = observed(edge, var, pre_g, 'g')
+            out['cases'] += len(exp_p) + len(exp_g) + 1
+            out['by_kind'][kind] = out['by_kind'].get(kind, 0) + len(exp_p) + len(exp_g) + 1
+            desc = 'calls for language sets %r' % ([list(LANGSETS[ls]) for ls in seq],)
+            if got_p != exp_p:
+                out['viol'].append(('C03:%s:%s' % (kind, 'count' if len(got_p) != len(exp_p) else 'changed'),
+                                    '%s (%s): language %s should receive %r, its %s has %r' % (tname, desc, lang, exp_p, var, got_p),
+                                    {'given': [x.decode() for x in exp_p], 'observed': [x.decode('utf-8', 'replace') for x in got_p], 'lang_sequence': list(seq)}))
+            if got_g != exp_g:
+                out['viol'].append(('C03:global-%s:%s' % (kind, 'count' if len(got_g) != len(exp_g) else 'changed'),
+                                    '%s: language %s should receive the global %r, its %s has %r' % (tname, lang, exp_g, var, got_g),
+                                    {'given': [x.decode() for x in exp_g], 'observed': [x.decode('utf-8', 'replace') for x in got_g], 'lang_sequence': list(gseq)}))
+    for lang in ('c', 'cpp'):
+        check('top_' + lang, lang, (), 0)
+        for si, seq in enumerate(seqs):
+            check('s%d_%s' % (si, lang), lang, seq, si)
+    shutil.rmtree(root, ignore_errors=True)
+    return out
+
+
+def run_any(job):
+    return run_lang_project(job) if job[1] == 'LANG' else run_project(job)
+
+
 def main():
     ck = Check('C03', 'exploration')
     n = ck.q(2, 3)
@@ -462,9 +564,11 @@ def main():
         jobs.append((len(jobs), part, False))
     for pi, part in enumerate(parts):
         jobs.append((len(jobs), part, True))
+    if ck.want('lang'):
+        jobs.insert(0, (len(jobs), 'LANG', False))
     tot = {'cases': 0, 'projects': 0, 'wrapped_edges': 0, 'rsp_edges': 0}
     kinds = {}
-    for res in pmap(run_project, jobs, chunksize=1):
+    for res in pmap(run_any, jobs, chunksize=1):
         tot['projects'] += 1
         tot['cases'] += res['cases']
         tot['wrapped_edges'] += res['wrapped']
